@@ -168,6 +168,7 @@ type W struct {
 	knownHit map[string]int64
 	cur      any // case being judged (for panic reports)
 	scratch  []byte
+	flip     bool
 }
 
 // NewW returns a fresh worker accumulator.
@@ -762,6 +763,13 @@ func (w *W) FirstFailure() (class, detail string, ok bool) {
 		return "", "", false
 	}
 	return best, w.fails[best].detail, true
+}
+
+// Flip alternates between true and false per worker; judges use it to vary the order in which they exercise the string and
+// the []byte instantiation of a parser (a parser that remembers its last input sees a different history then).
+func (w *W) Flip() bool {
+	w.flip = !w.flip
+	return w.flip
 }
 
 // Scratch copies s into a buffer owned by the worker and returns it. Judges hand this buffer (not a fresh allocation) to
